@@ -140,6 +140,7 @@ const FAMILIES: &[&str] = &[
     "multi",
     "detached-first",
     "env-defaults",
+    "closed-streams-timeout",
 ];
 
 /// the documented variables a document's `defaults: {environment: ...}` tries to displace (value as YAML)
@@ -462,6 +463,29 @@ fn gen(k: u64, rng: &mut Rng, thorough: bool) -> C18Case {
                 case.delay_ms = 300;
             }
         }
+        "closed-streams-timeout" => {
+            // a non-detached Markdown test case that closes its streams and outlives its time limit; with a second
+            // document that keeps scrut busy until the shell has ended, or without (then the late look decides)
+            let n = rng.below(3);
+            let mut tests = if n == 0 { vec![] } else { basic_tests(rng, n, true, false) };
+            let mut c = t("close-sleep");
+            c.timeout_ms = 1000;
+            c.sleep_ms = 2000;
+            let pos = rng.below(tests.len() + 1);
+            tests.insert(pos, c);
+            let mut docs = vec![doc_at(rng, "cs", "closer", "md", tests)];
+            if rng.bool() {
+                let f = fmt_of(rng);
+                let mut busy = t("sleep");
+                busy.sleep_ms = 1600;
+                let mut tests = vec![busy];
+                tests.extend(basic_tests(rng, 1, true, false));
+                docs.push(doc_at(rng, "cs", "busy", &f, tests));
+            }
+            let args = docs.iter().enumerate().map(|(i, d)| arg(i, rand_form(rng, &d.rel))).collect();
+            case.procs.push(json_proc(docs, args));
+            case.delay_ms = sleep_delay;
+        }
         "renderer" => {
             let nt = 1 + rng.below(2);
             let mut tests = basic_tests(rng, nt, false, false);
@@ -524,6 +548,7 @@ fn test_cmd(sb: &Sandbox, id: &str, t: &T, cram: bool) -> (String, Vec<String>) 
         "cram-exit" => (format!("{mark}; exit 3"), any),
         "signal" => (format!("{mark}; kill -9 $$"), any),
         "badutf8" => (format!("{mark}; printf 'a\\377b\\n'"), vec!["zz".to_string()]),
+        "close-sleep" => (format!("{mark}; exec >/dev/null 2>&1; sleep {}.{:03}", t.sleep_ms / 1000, t.sleep_ms % 1000), any),
         // no expectations: the output of a detached test case is not looked at
         "detached" => (format!("{mark}; echo x > made-{id}"), vec![]),
         _ => (mark, any),
@@ -1406,8 +1431,8 @@ impl Monitor for C18 {
 
     fn plan(&self, tier: Tier) -> Plan {
         let mut p = Plan::new(
-            tier.pick(220, 1440),
-            "one case = one run of the scrut binary (or a burst of 8 concurrent runs sharing one TMPDIR) over generated Markdown/Cram documents; case k belongs to outcome class k mod 20 {detached first test case (Markdown), document defaults naming documented variables (Markdown front matter), pass, fail, multi (same file name in several directories, same path twice, directory argument), per-test timeout, hostile parent environment, document timeout (front matter / --timeout-seconds), skip, parse error, burst, parse error in a prepended/appended document, missing shell, non-executable shell, Cram script ended by exit, command killed by a signal, renderer failure, missing document} x mode {default, --keep-temporary-directories, --work-directory}; observed: pwd/TMPDIR per test (marker log), documented variables (JSON of failing probe tests), TMPDIR tree and work directory right after exit and after a delay; non-trivial = at least one test reported its directory, or scrut gave up before running anything (exit != 0); distinct = hash of (class, mode, shell, environment, processes, document formats, test kinds, argument spellings)",
+            tier.pick(231, 1470),
+            "one case = one run of the scrut binary (or a burst of 8 concurrent runs sharing one TMPDIR) over generated Markdown/Cram documents; case k belongs to outcome class k mod 21 {a command that closes its streams and outlives its time limit (with / without a following document), detached first test case (Markdown), document defaults naming documented variables (Markdown front matter), pass, fail, multi (same file name in several directories, same path twice, directory argument), per-test timeout, hostile parent environment, document timeout (front matter / --timeout-seconds), skip, parse error, burst, parse error in a prepended/appended document, missing shell, non-executable shell, Cram script ended by exit, command killed by a signal, renderer failure, missing document} x mode {default, --keep-temporary-directories, --work-directory}; observed: pwd/TMPDIR per test (marker log), documented variables (JSON of failing probe tests), TMPDIR tree and work directory right after exit and after a delay; non-trivial = at least one test reported its directory, or scrut gave up before running anything (exit != 0); distinct = hash of (class, mode, shell, environment, processes, document formats, test kinds, argument spellings)",
         );
         p.chunk = 1;
         p.case_timeout_s = 120;
